@@ -25,6 +25,7 @@ METHODS = [None, 'traditional', 'noconst', 'mean', 'damp', 'nothing']
 LL0, DLL = 3.5, 1.0e-4
 IVAR_SCALE = 100000          # Resample!IvarScale
 BIG = 2000000000
+SMALL_EXPONENTS = [-17, -12, -25, -4, -60, -8, -120]      # 1/c^2 stays below float64 overflow (1e308) with margin down to 1e-120
 
 _PAR = '''typedef struct {
     char flag[20]; # Flag name
@@ -254,13 +255,15 @@ def run_mc(ctx, rep):
     sampled = 0
     for st in core.iter_states(r):
         kind = st['c'].get('kind')
-        if kind not in ('single', 'infl', 'pair', 'pairinfl', 'stack'):
+        if kind not in ('single', 'infl', 'pair', 'pairinfl', 'stack', 'edge'):
             continue
         stats['cases_' + kind] += 1
         if kind == 'pair':
             continue            # spec-level laws only: exposures of <= 6 pixels are below the >= 101 good pixels of the statement
         if kind == 'single' and rng.random() >= keep_single:
             continue
+        if kind == 'edge' and ctx.quick and rng.random() >= 0.10:
+            continue            # thorough: every combination of exactly 101/102/103/all good pixels
         if kind == 'stack':
             # the family exists for isolated zero-weight pixels in the singly covered ends: those cases (slot bits 2, 3 of
             # either pattern) are sampled three times as densely as the others
@@ -276,7 +279,7 @@ def run_mc(ctx, rep):
         if allgood:
             for m in METHODS:       # without inverse variance: every pixel has unit weight
                 mc_run_one(ctx, rep, case, m, False, fluxkind, stats)
-        if n % 11 == 0 and kind not in ('pairinfl', 'stack'):
+        if n % 11 == 0 and kind not in ('pairinfl', 'stack', 'edge'):
             for m in METHODS:
                 if m != method:
                     mc_run_one(ctx, rep, case, m, True, fluxkind, stats)
@@ -360,7 +363,24 @@ def item_resample(sub, quick):
         iv = random_iv(rng, n) if use_ivar else np.ones(n, dtype=np.int64)
         while (iv > 0).sum() < 101:
             iv = random_iv(rng, n)
-        if use_ivar and nexp > 1:        # isolated zero-weight pixels near the ends, where another exposure may not reach
+        if nexp > 1 and rng.random() < 0.4:
+            # the lower edge of the stated domain: exactly 101, 102 or 103 good pixels in this exposure, either one
+            # contiguous stretch or the surplus removed as isolated pixels / short runs
+            target = rng.choice([101, 101, 102, 103])
+            if rng.random() < 0.5:
+                a = rng.randrange(0, n - target)
+                iv[:a] = 0
+                iv[a:a + target] = np.where(iv[a:a + target] > 0, iv[a:a + target], 4)
+                iv[a + target:] = 0
+            else:
+                while (iv > 0).sum() > target:
+                    goodidx = np.nonzero(iv > 0)[0]
+                    a = int(goodidx[rng.randrange(goodidx.size)])
+                    iv[a:a + min(rng.choice([1, 1, 2, 9, 40]), int((iv > 0).sum()) - target)] = 0
+            exact = True
+        else:
+            exact = False
+        if use_ivar and nexp > 1 and not exact:        # isolated zero-weight pixels near the ends, where another exposure may not reach
             for lo in (0, n - 4):
                 if rng.random() < 0.7:
                     iv[lo:lo + 4] = [rng.choice([1, 2, 4, 8]) for _ in range(4)]
@@ -418,37 +438,50 @@ def item_law(sub, quick):
         inll, flux, ivar, newll = concretise(exps, grid, ivl, kind, period=float(period), level=level)
         return run_call(inll, flux * mult, newll, ivar, method)
 
+    # physical units: the same spectrum expressed in units 10^uexp times smaller (flux * u, ivar / u^2), e.g. SDSS
+    # 1e-17 erg/s/cm^2/A written out in cgs.  Cycled deterministically so that every run holds small units.
+    uexp = SMALL_EXPONENTS[(sub // 2) % len(SMALL_EXPONENTS)] if sub % 2 else 0
+    u = 10.0 ** uexp
+    ivs_u = [iv / u ** 2 for iv in ivs]
+    desc['unit_exp10'] = uexp
+
     # identity: the same grid, and a shifted grid against the underlying curve
     for shift in ([Fraction(0)] if nexp > 1 else [Fraction(0), rng.choice([Fraction(1, 2), Fraction(1, 3), Fraction(3, 4)])]):
         grid = {'start': [shift.numerator, shift.denominator], 'step': [1, 1], 'count': n}
         m = rng.choice(plain)
-        f, v, exc = call(grid, 'smooth', ivs, m)
+        f, v, exc = call(grid, 'smooth', ivs_u, m, mult=u)
         if exc:
             errs.append(('identity', m, exc))
             continue
         truth = curve(np.array([float(p) for p in grid_positions(grid)]), 'smooth', float(period))
         g = v > 0
-        dev = float(np.abs(f - truth)[g].max()) / AMPL if g.any() else 0.0
-        recs.append({'kind': 'law', 'law': 'identity', 'period': period, 'devppm': scaled(dev, 1e6), 'ngood': int(g.sum()),
+        dev = float(np.abs(f / u - truth)[g].max()) / AMPL if g.any() else 0.0
+        recs.append({'kind': 'law', 'law': 'identity', 'period': period, 'devppm': scaled(dev, 1e6), 'ngood': int(g.sum()), 'unit_exp10': uexp,
                      'shift': [shift.numerator, shift.denominator], 'method': m or 'default', 'nexp': nexp})
     # a constant spectrum stays constant
     grid, _ = random_grid(rng, n)
     level = rng.choice([0.5, 2.5, 7.3, 50.0])
     m = rng.choice(plain)
-    f, v, exc = call(grid, 'const', ivs, m, level=level)
+    f, v, exc = call(grid, 'const', ivs_u, m, level=level, mult=u)
     if exc:
         errs.append(('const', m, exc))
     else:
         g = v > 0
-        dev = float(np.abs(f - level)[g].max()) / level if g.any() else 0.0
-        recs.append({'kind': 'law', 'law': 'const', 'devppb': scaled(dev, 1e9), 'ngood': int(g.sum()), 'method': m or 'default',
+        dev = float(np.abs(f / u - level)[g].max()) / level if g.any() else 0.0
+        recs.append({'kind': 'law', 'law': 'const', 'devppb': scaled(dev, 1e9), 'ngood': int(g.sum()), 'method': m or 'default', 'unit_exp10': uexp,
                      'nexp': nexp})
     # scaling (single exposure: the 2-D branch smooths the variance before the fit, the law is the same but costly)
     if nexp == 1:
         grid, _ = random_grid(rng, n)
         m = rng.choice(METHODS)
-        cnum, cden = rng.choice([(1, 10), (1, 4), (37, 100), (3, 1), (10, 1), (73, 10)])
-        cc = cnum / cden
+        # c in [0.1, 10] and, every other item, a power of ten down to 1e-120 (large c stays excluded: the function compares the
+        # smoothed inverse variance with an absolute float32 eps)
+        if sub % 2 == 0:
+            cexp = SMALL_EXPONENTS[(sub // 2) % len(SMALL_EXPONENTS)]
+            cnum, cden, cc = 1, 1, 10.0 ** cexp
+        else:
+            cnum, cden = rng.choice([(1, 10), (1, 4), (37, 100), (3, 1), (10, 1), (73, 10)])
+            cexp, cc = 0, cnum / cden
         f1, v1, e1 = call(grid, 'smooth', ivs, m)
         f2, v2, e2 = call(grid, 'smooth', [iv / cc ** 2 for iv in ivs], m, mult=cc)
         if e1 or e2:
@@ -457,7 +490,7 @@ def item_law(sub, quick):
             fin = np.isfinite(f1).all() and np.isfinite(f2).all()
             fd = float(np.abs(f2 - cc * f1).max() / (cc * max(1e-300, np.abs(f1).max()))) if fin else float('inf')
             vd = float(np.abs(v2 * cc ** 2 - v1).max() / max(1e-300, np.abs(v1).max())) if (v1 != 0).any() else float(np.abs(v2).max())
-            recs.append({'kind': 'law', 'law': 'scale', 'cnum': cnum, 'cden': cden, 'fluxppb': scaled(fd, 1e9), 'ivarppb': scaled(vd, 1e9),
+            recs.append({'kind': 'law', 'law': 'scale', 'cnum': cnum, 'cden': cden, 'cexp10': cexp, 'fluxppb': scaled(fd, 1e9), 'ivarppb': scaled(vd, 1e9),
                          'zerodiff': int(((v1 == 0) != (v2 == 0)).sum()), 'method': m or 'default'})
     return recs, desc, errs
 
@@ -562,7 +595,7 @@ def run_trace(ctx, rep):
         recs, desc, errs = item_law(sub, ctx.quick)
         for r in recs:
             records.append(r)
-            meta.append(dict(desc, law=r['law'], measured={x: r[x] for x in r if x.endswith(('ppm', 'ppb')) or x in ('zerodiff', 'ngood')}))
+            meta.append(dict(desc, law=r['law'], measured={x: r[x] for x in r if x.endswith(('ppm', 'ppb', 'exp10')) or x in ('zerodiff', 'ngood')}))
             ctx.evaluated(1, 'law-' + r['law'])
             ctx.validated()
             if r.get('ngood', 1):
@@ -641,6 +674,11 @@ def run(ctx):
         'pair cases of <= 6 pixels (incl. a shorter second exposure) are checked at spec level only; 2-D replays use inflated patterns '
         'and the "stack" family (110-pixel exposures displaced by 3/7/20 pixels, isolated zero-weight pixels in the singly covered '
         'ends, a seeded sample of the TLC cases) with >= 101 good pixels per exposure; rows of a real stack have equal length',
+        'scaling / identity / constant laws: c in [0.1, 10] and powers of ten 1e-4 .. 1e-120 (flux*c, ivar/c^2); the unchanged code '
+        'is scale-free to 1e-14 over that whole range (probed to 1e-150); smaller c is not used because 1/c^2 approaches the float64 '
+        'overflow (1e308), larger c because the function compares the smoothed inverse variance with an absolute float32 eps',
+        'the "edge" family and 40 % of the recorded stacks put exactly 101, 102 or 103 good pixels into an exposure (the lower edge of '
+        'the stated domain "at least 101 good pixels each")',
         'SPPIXMASK bit numbers come from a generated parameter file read by pydl\'s own set_maskbits']
     load_maskbits(ctx)
     rep = Reporter(ctx)
